@@ -141,7 +141,7 @@ package yqlib
 
 //@ func popOpToResult
 //@   props C09 C11
-//@   requires len(opStack) > 0 && opStack[len(opStack)-1] != nil
+//@   requires len(opStack) > 0 && stackTok(opStack[len(opStack)-1])
 //@   ensures @stack-popped result0 == opStack[0:len(opStack)-1]
 //@   ensures @op-appended len(result1) == len(result) + 1 && result1[len(result)] == opStack[len(opStack)-1].Operation
 //@   ensures @prefix-kept forall(j, 0, len(result), result1[j] == result[j])
@@ -183,6 +183,24 @@ package yqlib
 
 //@ func (*token).toString
 //@   props C11
+//@   requires t != nil && implies(t.TokenType == operationToken, t.Operation != nil && t.Operation.OperationType != nil)
 
+// calls the ToString function value stored in the operation table: assumed to be a pure printer
 //@ func (*Operation).toString
-//@   props C11
+//@   trusted
+//@   requires implies(p != nil, p.OperationType != nil)
+
+// ---------------------------------------------------------------------------------------------
+// expression_parser.go
+
+//@ pred wfNode(e) = e != nil && e.Operation != nil && e.Operation.OperationType != nil && implies(e.Operation.OperationType.NumArgs == 2, e.LHS != nil && e.RHS != nil) && implies(e.Operation.OperationType.NumArgs == 1, e.LHS == nil && e.RHS != nil) && implies(e.Operation.OperationType.NumArgs == 0, e.LHS == nil && e.RHS == nil)
+
+//@ func (*expressionParserImpl).createExpressionTree
+//@   props C09 C11
+//@   requires @ops-wellformed resultOK(postFixPath)
+//@   requires @arity-at-most-2 forall(j, 0, len(postFixPath), postFixPath[j].OperationType.NumArgs <= 2)
+//@   ensures @empty implies(len(postFixPath) == 0, result0 == nil && result1 == nil)
+//@   ensures @root-wellformed implies(result1 == nil && len(postFixPath) > 0, wfNode(result0))
+//@   ensures @error-means-no-tree implies(result1 != nil, result0 == nil)
+//@   loop 1:
+//@     invariant @stack-nodes forall(j, 0, len(stack), wfNode(stack[j]) && fresh(stack[j]))
